@@ -4,6 +4,44 @@
    Generic in s / table / admissible kinds; instantiated twice in NestingMain.v. *)
 From TL Require Import Lib.Base Lib.GenTypes Model.Skel Model.Nesting Proofs.NestingTs.
 
+(* the visitor with the literals read from the source is the visitor the lemmas below talk about *)
+Section PyInd.
+  Variable P : pynode -> Prop.
+  Hypothesis HIf : forall b o, Forall P b -> Forall P o -> P (PIf b o).
+  Hypothesis HNode : forall cls cs, Forall P cs -> P (PNode cls cs).
+  Fixpoint pynode_ind' (n : pynode) : P n :=
+    let go := fix go (l : list pynode) : Forall P l :=
+                match l with
+                | [] => Forall_nil P
+                | x :: xs => Forall_cons x (pynode_ind' x) (go xs)
+                end in
+    match n with
+    | PIf b o => HIf b o (go b) (go o)
+    | PNode cls cs => HNode cls cs (go cs)
+    end.
+End PyInd.
+
+Lemma py_visit_g_111 ctl n : forall d e, py_visit_g 1 1 1 ctl n d e = py_visit ctl n d e.
+Proof.
+  induction n as [b o IHb IHo|cls cs IH] using pynode_ind'; intros d e.
+  - cbn [py_visit_g py_visit]. rewrite Nat.add_1_r.
+    set (d' := if e then d else S d).
+    assert (Hb : maxl (map (fun c => py_visit_g 1 1 1 ctl c d' false) b) = maxl (map (fun c => py_visit ctl c d' false) b)).
+    { apply maxl_map_ext. rewrite Forall_forall in IHb |- *. intros c Hc. apply IHb, Hc. }
+    assert (Ho : maxl (map (fun c => py_visit_g 1 1 1 ctl c d' false) o) = maxl (map (fun c => py_visit ctl c d' false) o)).
+    { apply maxl_map_ext. rewrite Forall_forall in IHo |- *. intros c Hc. apply IHo, Hc. }
+    rewrite Hb. f_equal. f_equal.
+    destruct o as [|[b1 o1|cls1 l1] [|y ys]]; try exact Ho.
+    + inversion IHo as [|? ? H1 _]; subst. cbn [List.length Nat.eqb]. apply H1.
+  - cbn [py_visit_g py_visit]. rewrite Nat.add_1_r.
+    assert (H1 : forall dd, maxl (map (fun c => py_visit_g 1 1 1 ctl c dd false) cs) = maxl (map (fun c => py_visit ctl c dd false) cs)).
+    { intros dd. apply maxl_map_ext. rewrite Forall_forall in IH |- *. intros c Hc. apply IH, Hc. }
+    rewrite !H1. reflexivity.
+Qed.
+
+Lemma py_visit_src_eq ctl n d e : py_visit_src ctl n d e = py_visit ctl n d e.
+Proof. exact (py_visit_g_111 ctl n d e). Qed.
+
 Definition sh (d n : nat) : nat := if n =? 0 then 0 else d + n.
 
 Lemma sh_max d a b : Nat.max (sh d a) (sh d b) = sh d (Nat.max a b).
